@@ -11,6 +11,7 @@ import (
 	"runtime/debug"
 	"strings"
 	"testing"
+	"time"
 
 	old_faithful_grpc "github.com/rpcpool/yellowstone-faithful/old-faithful-proto/old-faithful-grpc"
 	"github.com/rpcpool/yellowstone-faithful/zzverif/cargen"
@@ -276,7 +277,9 @@ func TestVerif_C08(t *testing.T) {
 	ctx := context.Background()
 	u64s := []uint64{validSlot, 0, 432000, 431999, 5 * 432000, 1<<64 - 1}
 	sigs := [][]byte{eA.Truth.Txs[1].Sig[:], nil, {1, 2, 3}, make([]byte, 64), make([]byte, 65), make([]byte, 200)}
-	grpcCase := func(what string, msg proto.Message, f func(w *c08World)) {
+	// watched = the call runs under the request watchdog: not returning within 120 s, twice in a row, is a
+	// finding of its own (the handler produced neither a response nor an error status)
+	grpcCaseW := func(what string, msg proto.Message, watched bool, f func(w *c08World)) {
 		for _, w := range worlds {
 			mine := vkit.Mine(caseIdx)
 			caseIdx++
@@ -284,7 +287,32 @@ func TestVerif_C08(t *testing.T) {
 				continue
 			}
 			w := w
-			pan, stack := c08Call(func() { f(w) })
+			var pan interface{}
+			var stack string
+			if watched {
+				type res struct {
+					pan   interface{}
+					stack string
+				}
+				ch := make(chan res, 2)
+				saved := vkRequestWatchdog
+				vkRequestWatchdog = 120 * time.Second
+				returned := vkWatch(func() { p, s := c08Call(func() { f(w) }); ch <- res{p, s} })
+				vkRequestWatchdog = saved
+				if !returned {
+					mj, _ := json.Marshal(msg)
+					R.Case(true, "")
+					R.Violation(fmt.Sprintf("C08|no-answer|grpc|%s", what),
+						fmt.Sprintf("[%s] gRPC %s: %s (message %s)", w.name, what, vkNoAnswer{120 * time.Second}, mj),
+						map[string]interface{}{"kind": "grpc", "world": w.name, "call": what, "message": json.RawMessage(mj)})
+					R.Outcome("no-answer:" + what)
+					continue
+				}
+				r := <-ch
+				pan, stack = r.pan, r.stack
+			} else {
+				pan, stack = c08Call(func() { f(w) })
+			}
 			R.Case(true, "")
 			if pan != nil {
 				site := c08PanicSite(stack)
@@ -296,6 +324,7 @@ func TestVerif_C08(t *testing.T) {
 			}
 		}
 	}
+	grpcCase := func(what string, msg proto.Message, f func(w *c08World)) { grpcCaseW(what, msg, false, f) }
 	for _, s := range u64s {
 		m := wire(&old_faithful_grpc.BlockRequest{Slot: s}).(*old_faithful_grpc.BlockRequest)
 		grpcCase("GetBlock", m, func(w *c08World) { w.multi.GetBlock(ctx, m) })
@@ -344,7 +373,9 @@ func TestVerif_C08(t *testing.T) {
 		end   *uint64
 	}
 	p := func(v uint64) *uint64 { return &v }
-	ranges := []rng{{validSlot - 1, p(validSlot + 3)}, {validSlot, nil}, {validSlot + 3, p(validSlot)}, {431_990, p(432_010)}, {5 * 432000, p(5*432000 + 3)}, {2*432000 - 2, nil}}
+	ranges := []rng{{validSlot - 1, p(validSlot + 3)}, {validSlot, nil}, {validSlot + 3, p(validSlot)}, {431_990, p(432_010)}, {5 * 432000, p(5*432000 + 3)}, {2*432000 - 2, nil},
+		// reversed across two or more epoch boundaries, and reversed over the whole slot space
+		{3*432000 + 1, p(432000 + 5)}, {^uint64(0), p(0)}}
 	for _, rg := range ranges {
 		for _, inc := range accLists {
 			var f *old_faithful_grpc.StreamBlocksFilter
@@ -388,6 +419,30 @@ func TestVerif_C08(t *testing.T) {
 					}
 				}
 			}
+		}
+	}
+	// the whole slot space in one request; the client hangs up after a moment (the stream context is
+	// cancelled), so the case is about how the range is SET UP, not about streaming it
+	{
+		hangUp := func() vkStreamBase {
+			c, cancel := context.WithTimeout(context.Background(), 1500*time.Millisecond)
+			_ = cancel // released by the timeout
+			return vkStreamBase{ctx: c}
+		}
+		for _, rg := range []rng{{0, p(^uint64(0))}, {432000, p(1 << 62)}, {^uint64(0), p(^uint64(0))}, {^uint64(0) - 2, nil}} {
+			rg := rg
+			m := wire(&old_faithful_grpc.StreamTransactionsRequest{StartSlot: rg.start, EndSlot: rg.end}).(*old_faithful_grpc.StreamTransactionsRequest)
+			grpcCaseW("StreamTransactions(no filter, client hangs up)", m, true, func(w *c08World) {
+				w.multi.StreamTransactions(m, &vkTxStream{vkStreamBase: hangUp()})
+			})
+			mf := wire(&old_faithful_grpc.StreamTransactionsRequest{StartSlot: rg.start, EndSlot: rg.end, Filter: &old_faithful_grpc.StreamTransactionsFilter{AccountInclude: []string{validAddr}}}).(*old_faithful_grpc.StreamTransactionsRequest)
+			grpcCaseW("StreamTransactions(include, client hangs up)", mf, true, func(w *c08World) {
+				w.multi.StreamTransactions(mf, &vkTxStream{vkStreamBase: hangUp()})
+			})
+			mb := wire(&old_faithful_grpc.StreamBlocksRequest{StartSlot: rg.start, EndSlot: rg.end}).(*old_faithful_grpc.StreamBlocksRequest)
+			grpcCaseW("StreamBlocks(client hangs up)", mb, true, func(w *c08World) {
+				w.multi.StreamBlocks(mb, &vkBlockStream{vkStreamBase: hangUp()})
+			})
 		}
 	}
 	R.Bounds["cases_total_per_world"] = caseIdx / 3
